@@ -32,6 +32,7 @@ import (
 	"github.com/dolthub/dolt/go/libraries/doltcore/doltdb/durable"
 	"github.com/dolthub/dolt/go/libraries/doltcore/merge"
 	"github.com/dolthub/dolt/go/libraries/doltcore/table/editor"
+	"github.com/dolthub/dolt/go/libraries/utils/verifhook"
 	"github.com/dolthub/dolt/go/store/datas"
 	"github.com/dolthub/dolt/go/store/hash"
 	"github.com/dolthub/dolt/go/store/prolly"
@@ -455,6 +456,7 @@ func (tx *DoltTransaction) doCommit(
 			if err != nil {
 				return nil, nil, err
 			}
+			verifhook.At("dsess.tx.beforeWrite")
 
 			// Checked before the working set merge so that a stale amend reports the moved head rather
 			// than a data conflict.
@@ -464,6 +466,7 @@ func (tx *DoltTransaction) doCommit(
 
 			if newWorkingSet || workingAndStagedEqual(existingWs, startState) {
 				// ff merge
+				verifhook.Emit("dsess.tx.path", "ff")
 				err = tx.validateWorkingSetForCommit(ctx, workingSet, isFfMerge)
 				if err != nil {
 					return nil, nil, err
@@ -482,6 +485,7 @@ func (tx *DoltTransaction) doCommit(
 			}
 
 			// otherwise (not a ff), merge the working sets together
+			verifhook.Emit("dsess.tx.path", "merge")
 			start := time.Now()
 			mergedWorkingSet, err := tx.mergeRoots(ctx, dbName, startState, existingWs, workingSet, mergeOpts)
 			if err != nil {
